@@ -32,7 +32,7 @@ class P:
         p = os.path.join(vf.ROOT, ".build", "extract.json")
         if os.path.exists(p):
             ex = json.load(open(p)).get("locks", {})
-        rc, out = vf.sh(["go", "build", "-race", "-tags", "verif", "-o", "bin/race", "./cmd/race"], cwd=vf.HARNESS, env=vf.GOENV, timeout=900)
+        rc, out = vf.sh(["go", "build"] + vf.harness_modfile() + ["-race", "-tags", "verif", "-o", "bin/race", "./cmd/race"], cwd=vf.HARNESS, env=vf.GOENV, timeout=900)
         if rc != 0:
             return {"violations": [{"cases": [], "verdict": "race stress harness does not build: " + out[-500:]}], "coverage": {}}
         viol, stats = [], []
@@ -42,7 +42,7 @@ class P:
             m = re.search(r"RACE-STRESS ok ops=(\d+) gets=(\d+) dumps=(\d+)", pr.stdout)
             if pr.returncode != 0 or not m:
                 what = "DATA RACE" if "DATA RACE" in pr.stderr else ("fatal error / panic" if ("fatal error" in pr.stderr or "panic" in pr.stderr) else "unsound observation")
-                frames = [l.strip() for l in pr.stderr.split("\n") if "/repo/" in l][:6]
+                frames = [l.strip() for l in pr.stderr.split("\n") if (vf.REPO + "/") in l][:6]
                 viol.append({"cases": [], "verdict": "%s in the real template cache under concurrent decode / Dump / Get (workers=%d): %s %s" % (
                     what, w, " | ".join(frames), pr.stdout[-300:]), "replay_cmd": "cd harness && go build -race -o bin/race ./cmd/race && GORACE=halt_on_error=1 ./bin/race -d %s -w %d" % (d, w),
                     "stderr_tail": pr.stderr[-1500:]})
